@@ -686,6 +686,8 @@ class Interp:
         ia, ib = D.get_iv(st, va), D.get_iv(st, vb)
         if base in D.CMP_SETS:
             t, f = D.cmp_possible(st, base, va, vb)
+            if va in D.CONSTVAL and vb in D.CONSTVAL and t != f:
+                return const_int(1 if t else 0, 'bool')          # two constants: the comparison is a constant
             v = D.term_vid(st, (base, va, vb), 0 if f else 1, 1 if t else 0)
             return ('i', v, 'bool')
         rty = dest_ty['elems'][0] if checked else dest_ty
@@ -1751,7 +1753,42 @@ class Interp:
         if self.steps > self.max_steps:
             raise Budget(f'step budget exceeded in {fn} (entry {self.cur_entry})')
         blk = body['blocks'][bb]
-        for si, stmt in enumerate(blk['stmts']):
+        return self._exec_block_from(st, fid, fn, body, bb, blk, 0, results)
+
+    def _index_split(self, st, fid, stmt):
+        """a statement that indexes by a local whose value is one of a few numbers on this path (a table looked up by a small computed
+        index): the values to decide, so that each path reads one table entry instead of the join of several"""
+        if stmt.get('s') != 'assign':
+            return None
+        rv = stmt['rv']
+        places = []
+        for key in ('op', 'place', 'a', 'b'):
+            o = rv.get(key)
+            if isinstance(o, dict):
+                pl = o.get('place') if 'place' in o else (o if 'p' in o else None)
+                if isinstance(pl, dict) and pl.get('p'):
+                    places.append(pl)
+        for pl in places:
+            for pe in pl['p']:
+                if isinstance(pe, dict) and pe.get('k') == 'index':
+                    v = st.frames[fid].get(pe['local'])
+                    if v is not None and v[0] == 'i' and v[1] not in D.CONSTVAL:
+                        lo, hi = D.get_iv(st, v[1])
+                        if lo != -INF and hi != INF and 0 < hi - lo <= 12:
+                            return v[1], range(int(lo), int(hi) + 1)
+        return None
+
+    def _exec_block_from(self, st, fid, fn, body, bb, blk, start, results):
+        for si in range(start, len(blk['stmts'])):
+            stmt = blk['stmts'][si]
+            sp = self._index_split(st, fid, stmt)
+            if sp is not None:
+                outs = []
+                for val in sp[1]:
+                    s2 = st.clone()
+                    if D.set_iv(s2, sp[0], val, val) and not s2.dead:
+                        outs.extend(self._exec_block_from(s2, fid, fn, body, bb, blk, si, results))
+                return outs
             self.exec_stmt(st, fid, fn, body, bb, si, stmt)
             if st.dead:
                 return []
